@@ -240,7 +240,7 @@ const NBUF: usize = 1 + (NL + 1) + WMAX;
 pub(crate) struct RefName {
     k: usize,
     len: [usize; NL],
-    oct: [[u8; LO]; NL],
+    oct: [u8; NL * LO],
     buf: [u8; NBUF],
     wire_at: usize,
     wire_len: usize,
@@ -251,11 +251,11 @@ impl RefName {
         let k: usize = kani::any();
         kani::assume(k <= NL);
         let len: [usize; NL] = kani::any();
-        let oct: [[u8; LO]; NL] = kani::any();
+        let oct: [u8; NL * LO] = kani::any();
         Self::from_parts(k, len, oct)
     }
 
-    fn from_parts(k: usize, len: [usize; NL], oct: [[u8; LO]; NL]) -> Self {
+    fn from_parts(k: usize, len: [usize; NL], oct: [u8; NL * LO]) -> Self {
         let mut buf = [0u8; NBUF];
         let n_labels = k + 1;
         let wire_at = 1 + n_labels;
@@ -270,7 +270,7 @@ impl RefName {
                 let mut j = 0;
                 while j < LO {
                     if j < len[i] {
-                        buf[wire_at + w + 1 + j] = oct[i][j];
+                        buf[wire_at + w + 1 + j] = oct[i * LO + j];
                     }
                     j += 1;
                 }
@@ -300,7 +300,7 @@ impl RefName {
     /// Octets of label `i` (`i == k` is the null label).
     fn label(&self, i: usize) -> &[u8] {
         if i < self.k {
-            &self.oct[i][..self.len[i]]
+            &self.oct[i * LO..i * LO + self.len[i]]
         } else {
             &[]
         }
@@ -383,17 +383,25 @@ pub(crate) fn bnd_name_eq_is_labelwise_ci() {
     assert!((a.name() == b.name()) == ref_name_eq(&a, &b));
 }
 
-/// [C16.name_cmp] `Name::cmp` is the RFC 4034 6.1 canonical order, consistent
-/// with `eq`, antisymmetric.
+/// [C16.name_cmp] `Name::cmp` is the RFC 4034 6.1 canonical order (a total
+/// order: the reference is a lexicographic order of label sequences).
 #[kani::proof]
 #[kani::unwind(6)]
 pub(crate) fn bnd_name_cmp_is_canonical() {
     let (a, b) = (RefName::any(), RefName::any());
     let c = a.name().cmp(b.name());
     assert!(c == ref_name_cmp(&a, &b));
+    assert!(a.name().partial_cmp(b.name()) == Some(c));
+}
+
+/// [C16.name_cmp] ordering is consistent with equality and antisymmetric.
+#[kani::proof]
+#[kani::unwind(6)]
+pub(crate) fn bnd_name_cmp_consistent_with_eq() {
+    let (a, b) = (RefName::any(), RefName::any());
+    let c = a.name().cmp(b.name());
     assert!((c == Ordering::Equal) == (a.name() == b.name()));
     assert!(b.name().cmp(a.name()) == c.reverse());
-    assert!(a.name().partial_cmp(b.name()) == Some(c));
 }
 
 /// [C16.name_cmp] transitivity of `<=` on three names.
@@ -698,7 +706,7 @@ pub(crate) fn bnd_name_superdomain() {
 /// [C16.labelbuf] `LabelBuf` (the HashMap key type) compares and hashes exactly
 /// like the `Label` it holds (labels <= 16 octets).
 #[kani::proof]
-#[kani::unwind(82)]
+#[kani::unwind(19)]
 pub(crate) fn bnd_labelbuf_agrees_with_label_16() {
     let (ba, bb): ([u8; 16], [u8; 16]) = (kani::any(), kani::any());
     let (a, b) = (any_label(&ba), any_label(&bb));
@@ -710,27 +718,10 @@ pub(crate) fn bnd_labelbuf_agrees_with_label_16() {
     a.hash(&mut h1);
     oa.hash(&mut h2);
     assert!(h1.n == h2.n);
-    assert!(h1.b == h2.b);
-}
-
-#[kani::proof]
-#[kani::unwind(6)]
-pub(crate) fn dbg_sub_classes() {
-    let (a, b) = (RefName::any(), RefName::any());
-    let r = a.name().eq_or_subdomain_of(b.name());
-    let s = ref_subdomain(&a, &b);
-    if r != s {
-        assert!(a.k != b.k, "class: equal k");
-        assert!(a.k <= b.k, "class: a.k > b.k");
-        assert!(a.k >= b.k, "class: a.k < b.k");
-        assert!(!r, "class: real true, ref false");
-        assert!(r, "class: real false, ref true");
-        assert!(b.k != 0, "class: b.k == 0");
-        assert!(b.k != 1, "class: b.k == 1");
-        assert!(b.k != 2, "class: b.k == 2");
-        assert!(b.k != 3, "class: b.k == 3");
-        assert!(a.k != 1, "class: a.k == 1");
-        assert!(a.k != 2, "class: a.k == 2");
-        assert!(a.k != 3, "class: a.k == 3");
+    let mut i = 0;
+    while i < 17 {
+        assert!(h1.b[i] == h2.b[i]);
+        i += 1;
     }
 }
+
